@@ -29,6 +29,9 @@ type gEvent struct {
 	Comp     []int   `json:"comp"`
 	Outs     [][]int `json:"outs"`
 	IDom     []int   `json:"idom"`
+	Kids     [][]int `json:"kids"`  // Dom(idom).Out(x) for every node
+	TIDom    []int   `json:"tidom"` // Dom(idom).IDom(x)
+	TN       int     `json:"tn"`    // Dom(idom).NumNodes()
 	DF       [][]int `json:"df"`
 	Panicked int     `json:"panicked"`
 	Seed     int64   `json:"seed"`
@@ -50,7 +53,7 @@ func graphRecord(out io.Writer, args []string) error {
 		return false
 	}
 	blank := func(op string, idx int) gEvent {
-		return gEvent{Op: op, Adj: [][]int{}, Pre: []int{}, Post: []int{}, Comp: []int{}, Outs: [][]int{}, IDom: []int{}, DF: [][]int{}, Seed: *rf.seed, Idx: idx}
+		return gEvent{Op: op, Adj: [][]int{}, Pre: []int{}, Post: []int{}, Comp: []int{}, Outs: [][]int{}, IDom: []int{}, Kids: [][]int{}, TIDom: []int{}, DF: [][]int{}, Seed: *rf.seed, Idx: idx}
 	}
 	for idx := 0; idx < *rf.n; idx++ {
 		if !rf.mine(idx) {
@@ -181,9 +184,25 @@ func graphRecord(out io.Writer, args []string) error {
 						dfc[i] = append([]int{}, df[i]...)
 					}
 					ev.DF = dfc
+					t := graphalg.Dom(append([]int{}, ev.IDom...))
+					ev.TN = t.NumNodes()
+					kids, tid := make([][]int, n), make([]int, n)
+					for i := 0; i < n && i < ev.TN; i++ {
+						kids[i] = append([]int{}, t.Out(i)...)
+						tid[i] = t.IDom(i)
+					}
+					ev.Kids, ev.TIDom = kids, tid
 				})
-				if hung {
-					ev.IDom, ev.DF = []int{}, [][]int{}
+				if hung || ev.Panicked != 0 {
+					if ev.IDom == nil || hung {
+						ev.IDom = []int{}
+					}
+					if ev.DF == nil || hung {
+						ev.DF = [][]int{}
+					}
+					if ev.Kids == nil || hung {
+						ev.Kids, ev.TIDom = [][]int{}, []int{}
+					}
 				}
 				enc.Encode(ev)
 				if hung {
